@@ -146,5 +146,5 @@ func (e *Evidence) finish(wall time.Duration, violations int) {
 }
 
 func (e *Evidence) write() error {
-	return writeJSON(filepath.Join(VerifDir, "evidence", e.PropertyID+".json"), e)
+	return writeJSON(filepath.Join(OutDir, "evidence", e.PropertyID+".json"), e)
 }
